@@ -41,11 +41,12 @@ inductive Atom where
   | str (s : String)
   deriving DecidableEq, Repr, Inhabited
 
-/-- Values stored in frames: atoms, one level of nested dict (view options, presets) and
+/-- Values stored in frames: atoms, one level of nested dict / list (mutable argument values) and
 `ContextualOverride(value, cascade, override_attrs)`. -/
 inductive Val where
   | atom (a : Atom)
   | dict (kvs : List (String × Atom))
+  | list (xs : List Atom)
   | ovr (a : Atom) (cascade overrideAttrs : Bool)
   deriving DecidableEq, Repr, Inhabited
 
@@ -87,7 +88,9 @@ structure Arg where
   perThread : Bool := true     -- `per_thread`
   deriving Repr, Inhabited
 
-/-- `utils.merge([top, kwargs])` restricted to atoms and one level of nested dicts. -/
+/-- `utils.merge([top, kwargs])` restricted to atoms, lists and one level of nested dicts; a dict is
+never merged over a list (the library then patches the list by integer index — outside the model,
+and the generator keeps a key to one kind of container). -/
 def deepMerge (top kw : Frame) : Frame :=
   kw.foldl (fun acc p =>
     match Dict.get? acc p.1, p.2 with
